@@ -33,6 +33,18 @@ def downgrade(sig):
     return inspect.Signature(ps, return_annotation=sig.return_annotation)
 
 
+def sparse_provenance(sig, mode):
+    if mode == 'sources={}':
+        return sig.replace(sources={})
+    src = dict((k, list(v)) for k, v in sig.sources.items() if k != '+depths')
+    if mode == "sources without '+depths'":
+        return sig.replace(sources=src)
+    for k in list(src)[:1]:
+        del src[k]
+    src['+depths'] = {}
+    return sig.replace(sources=src)
+
+
 def wellformed(sig):
     """None if well-formed, else a description of what is wrong."""
     from sigtools import signatures
@@ -132,6 +144,25 @@ def check_op(op, specs, args, stats, enum=False, down=False):
                 stats.fail('C15/downgraded/malformed', case, '%s with plain inputs -> %r: %s' % (desc, r2, wf))
         if nwarn < 1:
             stats.fail('C15/downgraded/no-warning', case, '%s with plain inspect.Signature inputs emitted no DeprecationWarning' % desc)
+    if down:
+        # hand-built provenance: an UpgradedSignature made from parameters alone has an empty map, one whose map was written
+        # by hand may list owners without recording a depth for them; what the operation does with the parameters is the same
+        for mode in ('sources={}', "sources without '+depths'", 'one entry removed, no depths recorded'):
+            stats.case()
+            sparse = [sparse_provenance(x, mode) for x in sigs]
+            with warnings.catch_warnings():
+                warnings.simplefilter('ignore')
+                r3, exc3 = apply_op(op, sparse, args)
+            stats.cls('hand-built provenance/%s' % ('raised' if exc3 is not None else 'returned'))
+            if (exc is None) != (exc3 is None) or (exc is not None and type(exc) is not type(exc3)):
+                stats.fail('C15/hand-built-provenance/outcome', dict(case, provenance=mode), '%s: inputs as retrieved -> %s, the same inputs with %s -> %s%s' % (
+                    desc, r if exc is None else type(exc).__name__, mode, r3 if exc3 is None else type(exc3).__name__, '' if exc3 is None else ': %s' % exc3))
+            elif exc is None:
+                if universe.spec_from_sig(r) != universe.spec_from_sig(r3):
+                    stats.fail('C15/hand-built-provenance/params', dict(case, provenance=mode), '%s: inputs as retrieved -> %s, with %s -> %s' % (desc, r, mode, r3))
+                wf = wellformed(r3)
+                if wf:
+                    stats.fail('C15/hand-built-provenance/malformed', dict(case, provenance=mode), '%s with %s -> %r: %s' % (desc, mode, r3, wf))
     if nontriv:
         if enum:
             stats.nontriv_enum()
